@@ -45,6 +45,9 @@ const CLUSTERS: [u16; 4] = [0, 1, 7, 65535];
 pub enum Frame {
     /// one complete version of origin `origin` declared with cluster `declared` (None: field absent)
     Uni { origin: u8, version: u8, declared: Option<u8> },
+    /// several versions in ONE uni stream, each frame with its own declared cluster (4 = the node's own),
+    /// as a broadcaster flushing buffered payloads does
+    UniStream { parts: Vec<(u8, u8, Option<u8>)> },
     /// a sync session start declared with cluster `declared`
     Bi { declared: Option<u8> },
 }
@@ -62,7 +65,8 @@ pub struct Case {
 pub fn case_strategy() -> impl Strategy<Value = Case> {
     let declared = || prop_oneof![4 => (0u8..4).prop_map(Some), 1 => Just(None)];
     let frame = prop_oneof![
-        3 => (0u8..2, 0u8..3, declared()).prop_map(|(origin, version, declared)| Frame::Uni { origin, version, declared }),
+        2 => (0u8..2, 0u8..3, declared()).prop_map(|(origin, version, declared)| Frame::Uni { origin, version, declared }),
+        2 => proptest::collection::vec((0u8..2, 0u8..3, prop_oneof![3 => Just(Some(4u8)), 3 => (0u8..4).prop_map(Some), 1 => Just(None)]), 2..5).prop_map(|parts| Frame::UniStream { parts }),
         1 => declared().prop_map(|declared| Frame::Bi { declared }),
     ];
     (0u8..4, proptest::collection::vec(frame, 3..12), proptest::collection::vec((0u8..4, any::<bool>()), 2..7), 1u8..4).prop_map(|(own, frames, members, local_writes)| Case { own, frames, members, local_writes })
@@ -163,6 +167,27 @@ async fn run_case(case: &Case, info: &mut CaseInfo, root: std::path::PathBuf, ow
                 } else {
                     foreign_unis += 1;
                 }
+            }
+            Frame::UniStream { parts } => {
+                let mut buf = BytesMut::new();
+                for (origin, version, declared) in parts {
+                    let key = (*origin as usize % 2, 1 + *version as u64 % 3);
+                    let declared_id = declared.map(|d| if d == 4 { own } else { cid(d) });
+                    let effective = declared_id.unwrap_or(ClusterId(0));
+                    let (_, msgs) = &versions[&key];
+                    for m in msgs {
+                        buf.extend_from_slice(&uni_frame(m, declared_id)?);
+                    }
+                    let e = acceptable.entry(key).or_insert(false);
+                    if effective == own {
+                        *e = true;
+                        matching_unis += 1;
+                    } else {
+                        foreign_unis += 1;
+                    }
+                }
+                info.class("several-frames-in-one-stream");
+                transport.send_uni(gossip, buf.freeze()).await.map_err(|e| Fail::infra(format!("send_uni: {e}")))?;
             }
             Frame::Bi { declared } => {
                 let declared_id = declared.map(cid);
